@@ -9,10 +9,12 @@
 package main
 
 import (
+	"bufio"
 	"bytes"
 	"encoding/binary"
 	"encoding/hex"
 	"fmt"
+	"io"
 	"math/rand"
 	"os"
 	"os/exec"
@@ -22,6 +24,7 @@ import (
 	"strings"
 	"sync"
 	"syscall"
+	"testing/iotest"
 	"time"
 
 	"github.com/datastax/go-cassandra-native-protocol/compression/lz4"
@@ -44,7 +47,10 @@ type Desc struct {
 	Pat  string `json:"pat"`
 	Len  int    `json:"len"`
 	Seed int64  `json:"seed"`
+	Hex  string `json:"hex,omitempty"` // pattern "hex": the payload itself (small payloads found by a search)
 }
+
+func hexDesc(p []byte) Desc { return Desc{Pat: "hex", Len: len(p), Hex: hex.EncodeToString(p)} }
 
 func lcgNext(x uint64) uint64 { return (x*1103515245 + 12345) % (1 << 31) }
 
@@ -52,6 +58,12 @@ func lcgNext(x uint64) uint64 { return (x*1103515245 + 12345) % (1 << 31) }
 func expand(d Desc) []byte {
 	out := make([]byte, d.Len)
 	switch d.Pat {
+	case "hex":
+		b, err := hex.DecodeString(d.Hex)
+		if err != nil || len(b) != d.Len {
+			panic("bad hex descriptor")
+		}
+		return b
 	case "zero":
 	case "rep":
 		for i := range out {
@@ -91,7 +103,7 @@ var words = []string{"SELECT", "FROM", "WHERE", "system", "peers", "keyspace_nam
 func expandClass(class string, n int, seed int64) []byte {
 	switch class {
 	case "zero", "rep", "ramp", "lcg", "period", "half":
-		return expand(Desc{class, n, seed})
+		return expand(Desc{class, n, seed, ""})
 	case "text":
 		r := rand.New(rand.NewSource(seed))
 		var b bytes.Buffer
@@ -427,7 +439,7 @@ func segRecord(id int, d Desc, sc bool, comp string) J {
 			rec["ref_hex"] = hex.EncodeToString(ref)
 		}
 		restLen := id % 4
-		rest := expand(Desc{"lcg", restLen, int64(id)})
+		rest := expand(Desc{"lcg", restLen, int64(id), ""})
 		rec["rest"] = hex.EncodeToString(rest)
 		d := decodeSeg(comp, append(append([]byte{}, e.out...), rest...))
 		rec["dec"] = decJ(d, p)
@@ -459,6 +471,58 @@ func segxRecord(class string, n int, seed int64, p []byte, comp string, sc bool)
 		}
 	}
 	return rec
+}
+
+// ratioBoundaryPayloads searches small mixed payloads - a periodic run (period k, r bytes) followed by t distinct bytes -
+// for those whose LZ4 block, as produced by lz4.Compressor{}.Compress, is exactly as long as the payload (delta 0: the
+// encoder still sends the block, `<=`, so both header length fields are equal), one byte shorter (delta -1) and one byte
+// longer (delta +1: the first payload of the uncompressed fallback).  Up to perClass payloads per delta, spread over the
+// candidates.  The search runs against the compiled library, so the family follows the compressor that is really used.
+type ratioPayload struct {
+	p       []byte
+	delta   int
+	k, r, t int
+}
+
+func ratioBoundaryPayloads(perClass int) (sel []ratioPayload, counts map[int]int) {
+	cands := map[int][]ratioPayload{}
+	counts = map[int]int{}
+	for _, k := range []int{1, 2, 3, 4, 5, 7} {
+		for r := 4; r <= 48; r++ {
+			for t := 0; t <= 48; t++ {
+				p := make([]byte, 0, r+t)
+				for i := 0; i < r; i++ {
+					p = append(p, byte('A'+i%k))
+				}
+				for j := 0; j < t; j++ {
+					p = append(p, byte('e'+j))
+				}
+				cp, ok := lz4Compress(p)
+				if !ok {
+					continue
+				}
+				if d := len(cp) - len(p); d >= -1 && d <= 1 {
+					cands[d] = append(cands[d], ratioPayload{p, d, k, r, t})
+					counts[d]++
+				}
+			}
+		}
+	}
+	for _, d := range []int{0, -1, 1} {
+		c := cands[d]
+		n := perClass
+		if n > len(c) {
+			n = len(c)
+		}
+		for i := 0; i < n; i++ {
+			sel = append(sel, c[(i*len(c))/n])
+		}
+	}
+	return sel, counts
+}
+
+func emitRatioSearch(mode string, sel []ratioPayload, counts map[int]int) {
+	hlib.Emit(J{"kind": "ratio_search", "mode": mode, "selected": len(sel), "equal": counts[0], "one_less": counts[-1], "one_more": counts[1]})
 }
 
 // ---------------------------------------------------------------- c06
@@ -504,7 +568,7 @@ func c06(tier string, seed int64) {
 	}
 	ilens = append(ilens, 63, 64, 65, 255, 256, 257, 1000, 4095, 4096, 10000)
 	for i, l := range ilens {
-		d := Desc{pats[i%len(pats)], l, int64(rnd.Intn(1 << 30))}
+		d := Desc{pats[i%len(pats)], l, int64(rnd.Intn(1 << 30)), ""}
 		p := expand(d)
 		hlib.Emit(J{"kind": "ieee", "desc": d, "crc": crc.ChecksumIEEE(p), "ref": refCrc32(p)})
 	}
@@ -525,7 +589,7 @@ func c06(tier string, seed int64) {
 	}
 	for i, l := range lens {
 		for k := 0; k < 2; k++ {
-			d := Desc{pats[(i+3*k)%len(pats)], l, int64(rnd.Intn(1 << 30))}
+			d := Desc{pats[(i+3*k)%len(pats)], l, int64(rnd.Intn(1 << 30)), ""}
 			for _, sc := range []bool{true, false} {
 				for _, comp := range []string{"none", "lz4"} {
 					emitSeg(d, sc, comp)
@@ -539,15 +603,15 @@ func c06(tier string, seed int64) {
 		sc   bool
 		comp string
 	}{
-		{Desc{"zero", 131071, 0}, true, "none"},
-		{Desc{"lcg", 131071, 7}, false, "lz4"},
-		{Desc{"zero", 131071, 0}, true, "lz4"},
-		{Desc{"half", 131071, 11}, true, "lz4"},
-		{Desc{"period", 131070, 5}, false, "none"},
-		{Desc{"rep", 65536, 0xAB}, false, "lz4"},
+		{Desc{"zero", 131071, 0, ""}, true, "none"},
+		{Desc{"lcg", 131071, 7, ""}, false, "lz4"},
+		{Desc{"zero", 131071, 0, ""}, true, "lz4"},
+		{Desc{"half", 131071, 11, ""}, true, "lz4"},
+		{Desc{"period", 131070, 5, ""}, false, "none"},
+		{Desc{"rep", 65536, 0xAB, ""}, false, "lz4"},
 		// the two largest legal sizes, compressible, through the compressing codec (sent compressed)
-		{Desc{"period", 131071, 9}, false, "lz4"},
-		{Desc{"rep", 131070, 0x5C}, true, "lz4"},
+		{Desc{"period", 131071, 9, ""}, false, "lz4"},
+		{Desc{"rep", 131070, 0x5C, ""}, true, "lz4"},
 	}
 	if thorough {
 		for _, pt := range pats {
@@ -556,12 +620,29 @@ func c06(tier string, seed int64) {
 					d    Desc
 					sc   bool
 					comp string
-				}{Desc{pt, l, int64(rnd.Intn(1 << 30))}, l%2 == 0, []string{"none", "lz4"}[rnd.Intn(2)]})
+				}{Desc{pt, l, int64(rnd.Intn(1 << 30)), ""}, l%2 == 0, []string{"none", "lz4"}[rnd.Intn(2)]})
 			}
 		}
 	}
 	for _, c := range long {
 		emitSeg(c.d, c.sc, c.comp)
+	}
+	// payloads whose LZ4 block is exactly as long as the payload, one byte shorter, one byte longer (found by search)
+	{
+		per := 6
+		if thorough {
+			per = 60
+		}
+		sel, counts := ratioBoundaryPayloads(per)
+		emitRatioSearch("c06", sel, counts)
+		for i, q := range sel {
+			d := hexDesc(q.p)
+			emitSeg(d, true, "lz4")
+			emitSeg(d, false, "lz4")
+			if i%3 == 0 {
+				emitSeg(d, i%2 == 0, "none")
+			}
+		}
 	}
 
 	// harness-only content classes through the LZ4 codec (round trip predicate only; not expanded on the Coq side).
@@ -598,7 +679,7 @@ func c06(tier string, seed int64) {
 	for _, l := range []int{131071, 131072, 131073, 140000, 200000, 262143, 262144, 1 << 20} {
 		for _, comp := range []string{"none", "lz4"} {
 			for _, pat := range []string{"zero", "lcg"} {
-				p := expand(Desc{pat, l, 3})
+				p := expand(Desc{pat, l, 3, ""})
 				e := encodeSeg(comp, true, p)
 				hlib.Emit(J{"kind": "refuse", "len": l, "comp": comp, "pat": pat, "enc_ok": e.ok, "written": len(e.out), "panic": e.pan})
 			}
@@ -612,8 +693,8 @@ func c06(tier string, seed int64) {
 		sc   bool
 		comp string
 	}{
-		{Desc{"lcg", 0, 1}, true, "none"}, {Desc{"lcg", 5, 2}, false, "none"}, {Desc{"zero", 40, 0}, true, "lz4"},
-		{Desc{"lcg", 9, 4}, true, "lz4"}, {Desc{"lcg", 0, 1}, false, "lz4"}, {Desc{"period", 70, 3}, false, "lz4"},
+		{Desc{"lcg", 0, 1, ""}, true, "none"}, {Desc{"lcg", 5, 2, ""}, false, "none"}, {Desc{"zero", 40, 0, ""}, true, "lz4"},
+		{Desc{"lcg", 9, 4, ""}, true, "lz4"}, {Desc{"lcg", 0, 1, ""}, false, "lz4"}, {Desc{"period", 70, 3, ""}, false, "lz4"},
 	}
 	did := 0
 	emitRaw := func(comp string, in []byte, what string) {
@@ -719,11 +800,11 @@ func c07(tier string, seed int64) {
 		comp string
 	}
 	bases := []base{
-		{Desc{"lcg", 0, 1}, true, "none"}, {Desc{"lcg", 1, 2}, false, "none"}, {Desc{"lcg", 33, 3}, true, "none"},
-		{Desc{"lcg", 0, 1}, false, "lz4"}, {Desc{"lcg", 7, 9}, true, "lz4"}, {Desc{"zero", 100, 0}, true, "lz4"},
-		{Desc{"ramp", 64, 5}, false, "lz4"}, {Desc{"period", 300, 4}, true, "none"},
-		{Desc{"lcg", 4096, 6}, false, "none"}, {Desc{"half", 20000, 8}, true, "lz4"},
-		{Desc{"lcg", 131071, 10}, true, "none"}, {Desc{"zero", 131071, 0}, false, "lz4"}, {Desc{"lcg", 131071, 12}, false, "lz4"},
+		{Desc{"lcg", 0, 1, ""}, true, "none"}, {Desc{"lcg", 1, 2, ""}, false, "none"}, {Desc{"lcg", 33, 3, ""}, true, "none"},
+		{Desc{"lcg", 0, 1, ""}, false, "lz4"}, {Desc{"lcg", 7, 9, ""}, true, "lz4"}, {Desc{"zero", 100, 0, ""}, true, "lz4"},
+		{Desc{"ramp", 64, 5, ""}, false, "lz4"}, {Desc{"period", 300, 4, ""}, true, "none"},
+		{Desc{"lcg", 4096, 6, ""}, false, "none"}, {Desc{"half", 20000, 8, ""}, true, "lz4"},
+		{Desc{"lcg", 131071, 10, ""}, true, "none"}, {Desc{"zero", 131071, 0, ""}, false, "lz4"}, {Desc{"lcg", 131071, 12, ""}, false, "lz4"},
 	}
 	total := map[string]int{}
 	accepted := 0
@@ -1005,6 +1086,152 @@ func min(a, b int) int {
 	return b
 }
 
+// ---------------------------------------------------------------- reader / writer kinds (C08)
+//
+// The compressors take an io.Reader and an io.Writer.  Their result must depend on the BYTES delivered, not on the
+// concrete reader or writer type: every entry point is driven with each source kind x destination kind below and must
+// give the same outcome and output as with the (*bytes.Buffer, *bytes.Buffer) pair, and the round trip is judged per kind.
+
+type chunkReader struct { // delivers at most n bytes per Read, from a plain byte slice
+	data []byte
+	n    int
+}
+
+func (c *chunkReader) Read(p []byte) (int, error) {
+	if len(c.data) == 0 {
+		return 0, io.EOF
+	}
+	k := c.n
+	if k > len(p) {
+		k = len(p)
+	}
+	if k > len(c.data) {
+		k = len(c.data)
+	}
+	copy(p, c.data[:k])
+	c.data = c.data[k:]
+	return k, nil
+}
+
+type plainWriter struct{ buf *bytes.Buffer } // an io.Writer that is nothing else
+
+func (w plainWriter) Write(p []byte) (int, error) { return w.buf.Write(p) }
+
+var srcKinds = []string{"bytes.Buffer", "bytes.Reader", "strings.Reader", "io.LimitReader", "iotest.OneByteReader", "chunkReader(7)",
+	"io.MultiReader", "io.SectionReader", "bufio.Reader", "iotest.DataErrReader"}
+var dstKinds = []string{"bytes.Buffer", "plain io.Writer"}
+
+func mkSource(kind string, x []byte) io.Reader {
+	x = append([]byte{}, x...)
+	switch kind {
+	case "bytes.Buffer":
+		return bytes.NewBuffer(x)
+	case "bytes.Reader":
+		return bytes.NewReader(x)
+	case "strings.Reader":
+		return strings.NewReader(string(x))
+	case "io.LimitReader":
+		return io.LimitReader(bytes.NewReader(append(append([]byte{}, x...), 0xEE, 0xEE, 0xEE)), int64(len(x)))
+	case "iotest.OneByteReader":
+		return iotest.OneByteReader(bytes.NewReader(x))
+	case "chunkReader(7)":
+		return &chunkReader{x, 7}
+	case "io.MultiReader":
+		return io.MultiReader(bytes.NewReader(x[:len(x)/2]), bytes.NewBuffer(append([]byte{}, x[len(x)/2:]...)))
+	case "io.SectionReader":
+		return io.NewSectionReader(bytes.NewReader(append([]byte{0xDD, 0xDD}, x...)), 2, int64(len(x)))
+	case "bufio.Reader":
+		return bufio.NewReaderSize(bytes.NewReader(x), 16)
+	case "iotest.DataErrReader":
+		return iotest.DataErrReader(bytes.NewReader(x))
+	}
+	panic("source kind " + kind)
+}
+
+// runEntryPoint calls one compressor method with the given source / destination kinds.
+func runEntryPoint(algo, method, sk, dk string, in []byte) (out []byte, ok bool, pan string) {
+	defer func() {
+		if e := recover(); e != nil {
+			out, ok, pan = nil, false, fmt.Sprint(e)
+		}
+	}()
+	src := mkSource(sk, in)
+	var buf bytes.Buffer
+	var dst io.Writer = &buf
+	if dk != "bytes.Buffer" {
+		dst = plainWriter{&buf}
+	}
+	var err error
+	switch algo + "." + method {
+	case "lz4.Compress":
+		err = lz4.Compressor{}.Compress(src, dst)
+	case "lz4.Decompress":
+		err = lz4.Compressor{}.Decompress(src, dst)
+	case "lz4.CompressWithLength":
+		err = lz4.Compressor{}.CompressWithLength(src, dst)
+	case "lz4.DecompressWithLength":
+		err = lz4.Compressor{}.DecompressWithLength(src, dst)
+	case "snappy.CompressWithLength":
+		err = snappy.Compressor{}.CompressWithLength(src, dst)
+	case "snappy.DecompressWithLength":
+		err = snappy.Compressor{}.DecompressWithLength(src, dst)
+	default:
+		panic("entry point " + algo + "." + method)
+	}
+	return append([]byte{}, buf.Bytes()...), err == nil, ""
+}
+
+// readerMatrix: for one input, every (algorithm, format) x source kind x destination kind.  One record per combination:
+// the compressing entry point against the reference pair, the decompressing entry point fed with the REFERENCE compressed
+// bytes through the same kinds, and the round trip through this kind alone.
+func readerMatrix(class string, sz int, seed int64, x []byte) (cases, bad int) {
+	for _, af := range [][3]string{{"lz4", "Compress", "Decompress"}, {"lz4", "CompressWithLength", "DecompressWithLength"}, {"snappy", "CompressWithLength", "DecompressWithLength"}} {
+		algo, cm, dm := af[0], af[1], af[2]
+		refC, refOk, _ := runEntryPoint(algo, cm, "bytes.Buffer", "bytes.Buffer", x)
+		for _, sk := range srcKinds {
+			for _, dk := range dstKinds {
+				cases++
+				c, cok, cpan := runEntryPoint(algo, cm, sk, dk, x)
+				rec := J{"kind": "rdr", "algo": algo, "compress": cm, "decompress": dm, "class": class, "len": sz, "seed": seed, "src": sk, "dst": dk,
+					"compress_ok": cok, "ref_compress_ok": refOk, "out_len": len(c), "ref_len": len(refC), "compress_same": cok == refOk && bytes.Equal(c, refC)}
+				if cpan != "" {
+					rec["compress_panic"] = cpan
+				}
+				okAll := cok == refOk && bytes.Equal(c, refC) && cpan == ""
+				if refOk {
+					d, dok, dpan := runEntryPoint(algo, dm, sk, dk, refC)
+					rec["decompress_of_reference_ok"] = dok && bytes.Equal(d, x)
+					if dpan != "" {
+						rec["decompress_panic"] = dpan
+					}
+					okAll = okAll && dok && bytes.Equal(d, x)
+				}
+				if cok {
+					d, dok, _ := runEntryPoint(algo, dm, sk, dk, c)
+					rt := dok && bytes.Equal(d, x)
+					rec["roundtrip_ok"] = rt
+					rec["roundtrip_len"] = len(d)
+					okAll = okAll && rt
+				}
+				rec["ok"] = okAll
+				if !okAll {
+					bad++
+					if len(x) <= 256 {
+						rec["input_hex"] = hex.EncodeToString(x)
+						rec["out_hex"] = hex.EncodeToString(c)
+						rec["ref_hex"] = hex.EncodeToString(refC)
+					} else {
+						rec["out_head_hex"] = hex.EncodeToString(c[:min(len(c), 16)])
+						rec["ref_head_hex"] = hex.EncodeToString(refC[:min(len(refC), 16)])
+					}
+				}
+				hlib.Emit(rec)
+			}
+		}
+	}
+	return cases, bad
+}
+
 // ---------------------------------------------------------------- c08
 
 type rtRes struct {
@@ -1194,10 +1421,32 @@ func c08(tier string, seed int64) {
 			}
 		}
 	}
+	// every entry point x source reader kind x destination writer kind
+	{
+		msizes := []int{0, 1, 4, 29, 300, 5000}
+		if thorough {
+			msizes = append(msizes, 2, 3, 16, 17, 255, 256, 1000, 40000, 65535)
+		}
+		for ci, class := range classes {
+			for si, sz := range msizes {
+				if !thorough && (ci+si)%2 == 1 && sz > 4 {
+					continue
+				}
+				csd := int64(rnd.Intn(1 << 30))
+				cs, bd := readerMatrix(class, sz, csd, expandClass(class, sz, csd))
+				n += cs
+				fails += bd
+			}
+		}
+		x := []byte("ABCDABCDABCDABCefghijklmnopqr")
+		cs, bd := readerMatrix("literal", len(x), 0, x)
+		n += cs
+		fails += bd
+	}
 	// wrapper correspondence: small inputs with the library's own block as the oracle answer
-	wrapIn := [][]byte{{}, {7}, {0}, []byte("abc"), []byte("hello, world"), expand(Desc{"zero", 300, 0}), expand(Desc{"rep", 255, 9}), expand(Desc{"rep", 256, 9}),
-		expand(Desc{"lcg", 40, 3}), expand(Desc{"period", 200, 4}), expand(Desc{"zero", 16, 0}), expand(Desc{"zero", 17, 0}), expand(Desc{"zero", 2000, 0}),
-		expandClass("text", 400, 5), expandClass("rows", 500, 6), expand(Desc{"ramp", 64, 250})}
+	wrapIn := [][]byte{{}, {7}, {0}, []byte("abc"), []byte("hello, world"), expand(Desc{"zero", 300, 0, ""}), expand(Desc{"rep", 255, 9, ""}), expand(Desc{"rep", 256, 9, ""}),
+		expand(Desc{"lcg", 40, 3, ""}), expand(Desc{"period", 200, 4, ""}), expand(Desc{"zero", 16, 0, ""}), expand(Desc{"zero", 17, 0, ""}), expand(Desc{"zero", 2000, 0, ""}),
+		expandClass("text", 400, 5), expandClass("rows", 500, 6), expand(Desc{"ramp", 64, 250, ""})}
 	for _, x := range wrapIn {
 		bound := golz4.CompressBlockBound(len(x))
 		dst := make([]byte, bound)
@@ -1266,12 +1515,32 @@ func c08(tier string, seed int64) {
 			for _, pat := range []string{"zero", "rep", "period", "half"} {
 				sid++
 				n++
-				d := Desc{pat, sz, int64(1 + rnd.Intn(200))}
+				d := Desc{pat, sz, int64(1 + rnd.Intn(200)), ""}
 				rec := segRecord(sid, d, sid%2 == 1, "lz4")
 				if dj, _ := rec["dec"].(J); rec["enc_ok"] != true || dj["class"] != "ok" || dj["payload_eq"] != true {
 					fails++
 				}
 				hlib.Emit(rec)
+			}
+		}
+		// compressed size on and around the uncompressed size
+		{
+			per := 4
+			if thorough {
+				per = 40
+			}
+			sel, counts := ratioBoundaryPayloads(per)
+			emitRatioSearch("c08", sel, counts)
+			for _, q := range sel {
+				for _, sc := range []bool{true, false} {
+					sid++
+					n++
+					rec := segRecord(sid, hexDesc(q.p), sc, "lz4")
+					if dj, _ := rec["dec"].(J); rec["enc_ok"] != true || dj["class"] != "ok" || dj["payload_eq"] != true {
+						fails++
+					}
+					hlib.Emit(rec)
+				}
 			}
 		}
 		xsizes := []int{131071, 131070, 131069, 65536, 65535, 32768}
@@ -1490,8 +1759,8 @@ func malformed(n int, thorough bool, seed int64) {
 	}
 
 	// ---- segments
-	pl := expand(Desc{"lcg", 23, 5})
-	zl := expand(Desc{"zero", 300, 0})
+	pl := expand(Desc{"lcg", 23, 5, ""})
+	zl := expand(Desc{"zero", 300, 0, ""})
 	for _, entry := range []string{"segment", "segment-lz4"} {
 		compressed := entry == "segment-lz4"
 		// every header length field forced, header CRC-24 valid; bodies: none, short, exact with good / bad CRC-32, long
@@ -1587,7 +1856,7 @@ func malformed(n int, thorough bool, seed int64) {
 
 	// ---- decompressors
 	goodBlocks := [][]byte{}
-	for _, x := range [][]byte{{}, {7}, pl, zl, expandClass("text", 500, 3), expand(Desc{"period", 4000, 9})} {
+	for _, x := range [][]byte{{}, {7}, pl, zl, expandClass("text", 500, 3), expand(Desc{"period", 4000, 9, ""})} {
 		c, _ := lz4Compress(x)
 		goodBlocks = append(goodBlocks, c)
 	}
